@@ -23,9 +23,9 @@ Qed.
 (* ---- VLAN id ---- *)
 Definition vlan_bytes (v : N) : list N := if v =? 0 then [0; 0] else [v mod 256; 128 + v / 256].
 Definition chk_vlan (v ch : N) : bool :=
-  exch_eqb (one_exchange "set_vlan_id" [arg "vlan" v; arg "channel" ch] (RBytes [0]))
+  exch_ok "set_vlan_id" [arg "vlan" v; arg "channel" ch] (RBytes [0])
            (mkReq 12 1 0 (ch :: 20 :: vlan_bytes v)) (Ok PNone)
-  && exch_eqb (one_exchange "get_vlan_id" [arg "channel" ch] (RBytes (0 :: 0x11 :: vlan_bytes v)))
+  && exch_ok "get_vlan_id" [arg "channel" ch] (RBytes (0 :: 0x11 :: vlan_bytes v))
               (mkReq 12 2 0 [ch; 20; 0; 0]) (Ok (PInt (Z.of_N v))).
 
 (* every VLAN id on channel 1; boundary ids on every channel *)
@@ -50,41 +50,41 @@ Qed.
 
 Opaque one_exchange call bmc_handle.
 
-Lemma write_read_vlan s v ch : vlan_dom v ch ->
+Lemma write_read_vlan s v ch : is_supported "set_vlan_id" = true -> is_supported "get_vlan_id" = true -> vlan_dom v ch ->
   exists r1 r2, let s1 := put s (K_LAN, ch, 20) (vlan_bytes v) in
     call "set_vlan_id" [arg "vlan" v; arg "channel" ch] s = (r1, s1) /\ same r1 (Ok PNone) /\
     call "get_vlan_id" [arg "channel" ch] s1 = (r2, s1) /\ same r2 (Ok (PInt (Z.of_N v))).
 Proof.
-  intros D. destruct (vlan_chk v ch D) as [C Hc]. unfold chk_vlan in C. apply andb_true_iff in C as [W R].
+  intros Sw Sr D. destruct (vlan_chk v ch D) as [C Hc]. unfold chk_vlan in C. apply andb_true_iff in C as [W R].
   assert (BR : bmc_handle (put s (K_LAN, ch, 20) (vlan_bytes v)) (mkReq 12 2 0 [ch; 20; 0; 0])
                = (put s (K_LAN, ch, 20) (vlan_bytes v), RBytes (0 :: 0x11 :: vlan_bytes v))).
   { rewrite (bmc_get_lan _ ch 20 Hc), get_put_same. reflexivity. }
-  exact (write_then_read "set_vlan_id" "get_vlan_id" _ _ s _ _ _ _ _ _ _
+  exact (write_then_read "set_vlan_id" "get_vlan_id" _ _ s _ _ _ _ _ _ _ Sw Sr
            W (bmc_set_lan s ch 20 (vlan_bytes v) Hc) R BR).
 Qed.
 
 (* ---- IP address source ---- *)
 Definition src_name (k : N) : string := if k =? 1 then "static" else "dhcp".
 Definition chk_ipsrc (k ch : N) : bool :=
-  exch_eqb (one_exchange "set_ip_source" [("ip_source", PStr (src_name k)); arg "channel" ch] (RBytes [0]))
+  exch_ok "set_ip_source" [("ip_source", PStr (src_name k)); arg "channel" ch] (RBytes [0])
            (mkReq 12 1 0 [ch; 4; k]) (Ok PNone)
-  && exch_eqb (one_exchange "get_ip_source" [arg "channel" ch] (RBytes [0; 0x11; k]))
+  && exch_ok "get_ip_source" [arg "channel" ch] (RBytes [0; 0x11; k])
               (mkReq 12 2 0 [ch; 4; 0; 0]) (Ok (PStr (src_name k))).
 Lemma ipsrc_table : forallb (fun ch => forallb (fun k => chk_ipsrc k ch) [1; 2]) (nrange 16) = true.
 Proof. vm_cast_no_check (eq_refl true). Qed.
 
-Lemma write_read_ip_source s k ch : List.In k [1; 2] -> ch < 16 ->
+Lemma write_read_ip_source s k ch : is_supported "set_ip_source" = true -> is_supported "get_ip_source" = true -> List.In k [1; 2] -> ch < 16 ->
   exists r1 r2, let s1 := put s (K_LAN, ch, 4) [k] in
     call "set_ip_source" [("ip_source", PStr (src_name k)); arg "channel" ch] s = (r1, s1) /\ same r1 (Ok PNone) /\
     call "get_ip_source" [arg "channel" ch] s1 = (r2, s1) /\ same r2 (Ok (PStr (src_name k))).
 Proof.
-  intros Hk Hc.
+  intros Sw Sr Hk Hc.
   pose proof (table2 chk_ipsrc (nrange 16) [1; 2] ipsrc_table ch k (nrange_in 16 ch Hc) Hk) as C.
   unfold chk_ipsrc in C. apply andb_true_iff in C as [W R].
   assert (BR : bmc_handle (put s (K_LAN, ch, 4) [k]) (mkReq 12 2 0 [ch; 4; 0; 0])
                = (put s (K_LAN, ch, 4) [k], RBytes [0; 0x11; k])).
   { rewrite (bmc_get_lan _ ch 4 Hc), get_put_same. reflexivity. }
-  exact (write_then_read "set_ip_source" "get_ip_source" _ _ s _ _ _ _ _ _ _
+  exact (write_then_read "set_ip_source" "get_ip_source" _ _ s _ _ _ _ _ _ _ Sw Sr
            W (bmc_set_lan s ch 4 [k] Hc) R BR).
 Qed.
 
@@ -94,9 +94,9 @@ Definition ip_text (a b c d : N) : string :=
   (dec_of_N a ++ "." ++ dec_of_N b ++ "." ++ dec_of_N c ++ "." ++ dec_of_N d)%string.
 Definition chk_ip (ch : N) (x : N * N * N * N) : bool :=
   let '(a, b, c, d) := x in
-  exch_eqb (one_exchange "set_ip_address" [("ip_address", PStr (ip_text a b c d)); arg "channel" ch] (RBytes [0]))
+  exch_ok "set_ip_address" [("ip_address", PStr (ip_text a b c d)); arg "channel" ch] (RBytes [0])
            (mkReq 12 1 0 [ch; 3; a; b; c; d]) (Ok PNone)
-  && exch_eqb (one_exchange "get_ip_address" [arg "channel" ch] (RBytes [0; 0x11; a; b; c; d]))
+  && exch_ok "get_ip_address" [arg "channel" ch] (RBytes [0; 0x11; a; b; c; d])
               (mkReq 12 2 0 [ch; 3; 0; 0]) (Ok (PStr (ip_text a b c d))).
 Definition quads : list (N * N * N * N) :=
   flat_map (fun a => flat_map (fun b => flat_map (fun c => map (fun d => (a, b, c, d)) octets) octets) octets) octets.
@@ -113,19 +113,19 @@ Proof.
   apply in_map. assumption.
 Qed.
 
-Lemma write_read_ip_address s a b c d ch :
+Lemma write_read_ip_address s a b c d ch : is_supported "set_ip_address" = true -> is_supported "get_ip_address" = true -> 
   List.In a octets -> List.In b octets -> List.In c octets -> List.In d octets -> List.In ch [1] ->
   exists r1 r2, let s1 := put s (K_LAN, ch, 3) [a; b; c; d] in
     call "set_ip_address" [("ip_address", PStr (ip_text a b c d)); arg "channel" ch] s = (r1, s1) /\ same r1 (Ok PNone) /\
     call "get_ip_address" [arg "channel" ch] s1 = (r2, s1) /\ same r2 (Ok (PStr (ip_text a b c d))).
 Proof.
-  intros Ha Hb Hc Hd Hch.
+  intros Sw Sr Ha Hb Hc Hd Hch.
   assert (Hlt : ch < 16) by (destruct Hch as [<- | []]; lia).
   pose proof (table2 (fun x ch => chk_ip ch x) [1] quads ip_table ch (a, b, c, d) Hch (quads_in a b c d Ha Hb Hc Hd)) as C.
   cbv beta in C. unfold chk_ip in C. apply andb_true_iff in C as [W R].
   assert (BR : bmc_handle (put s (K_LAN, ch, 3) [a; b; c; d]) (mkReq 12 2 0 [ch; 3; 0; 0])
                = (put s (K_LAN, ch, 3) [a; b; c; d], RBytes [0; 0x11; a; b; c; d])).
   { rewrite (bmc_get_lan _ ch 3 Hlt), get_put_same. reflexivity. }
-  exact (write_then_read "set_ip_address" "get_ip_address" _ _ s _ _ _ _ _ _ _
+  exact (write_then_read "set_ip_address" "get_ip_address" _ _ s _ _ _ _ _ _ _ Sw Sr
            W (bmc_set_lan s ch 3 [a; b; c; d] Hlt) R BR).
 Qed.
